@@ -77,7 +77,9 @@ def pos_cases(draw):
     return {"kind": "pos", "claims": claims, "dt": dt, "transport": transport, "header": hdr, "key": gk.key_to_record(key),
             "keymode": keymode, "form": draw(st.sampled_from(KEYFORMS)),
             # how the caller names what is allowed: a registry built for it, the algorithms= list, or (JWE: a registry selects the transport) both
-            "allow": draw(st.sampled_from(["registry", "algorithms", "both"]))}
+            "allow": draw(st.sampled_from(["registry", "algorithms", "both"])),
+            # the caller's own JSON encoder / decoder classes (a claim of a type only that encoder knows is added)
+            "codec": draw(st.sampled_from([None, None, "encoder", "both"]))}
 
 
 neg_payload = st.one_of(
@@ -159,14 +161,31 @@ def run_pos(case) -> dict:
     header = copy.deepcopy(case["header"])
     before = copy.deepcopy(header)
     tag = case["transport"]
+    ekw, dkw = {}, {}
+    if case.get("codec"):
+        import uuid
+
+        class UUIDEncoder(json.JSONEncoder):
+            def default(self, o):
+                if isinstance(o, uuid.UUID):
+                    return str(o)
+                return super().default(o)
+
+        class PlainDecoder(json.JSONDecoder):
+            pass
+        claims["x-id"] = uuid.UUID(int=len(json.dumps(expected)) * 0x9e3779b97f4a7c15)
+        expected["x-id"] = str(claims["x-id"])
+        ekw = {"encoder_cls": UUIDEncoder}
+        dkw = {"decoder_cls": PlainDecoder} if case["codec"] == "both" else {}
+        tag += ":codec"
     try:
-        token = jwt.encode(header, claims, arg(enc_key), **kw)
+        token = jwt.encode(header, claims, arg(enc_key), **kw, **ekw)
     except Exception as e:
         return {f"C09:encode-raises:{tag}:{exc_key(e)}": f"{type(e).__name__}: {e} (header {before!r})"}
     if header != before:
         f[f"C09:encode-alters-callers-header:{tag}"] = f"header given {before!r} is {header!r} after jwt.encode (key mode {case['keymode']})"
     try:
-        tok = jwt.decode(token, arg(dec_key, True), **kw)
+        tok = jwt.decode(token, arg(dec_key, True), **kw, **dkw)
     except Exception as e:
         f[f"C09:decode-raises:{tag}:{exc_key(e)}"] = f"{type(e).__name__}: {e}"
         return f
